@@ -951,6 +951,33 @@ func doLine(line string) string {
 			return id + " BADCASE"
 		}
 		return doSyntax(id, t)
+	case "deepnest":
+		// the sentence ((( ... x eq 1 ... ))) with N pairs of parentheses, built here (the text would be megabytes)
+		n, err := strconv.Atoi(x.list[2].atom)
+		if err != nil || n < 0 {
+			return id + " BADCASE"
+		}
+		rule := strings.Repeat("(", n) + "x eq 1" + strings.Repeat(")", n)
+		obj := map[string]interface{}{"x": 1}
+		var verdict, v2, v3 bool
+		var perr, e2 error
+		escaped := false
+		func() {
+			defer func() {
+				if r := recover(); r != nil {
+					escaped = true
+				}
+			}()
+			ev, nerr := parser.NewEvaluator(rule)
+			if nerr != nil {
+				perr = nerr
+			} else {
+				verdict, perr = ev.Process(obj)
+			}
+			v2, e2 = rules.Evaluate(rule, obj)
+			v3 = parser.Evaluate(rule, obj)
+		}()
+		return fmt.Sprintf("%s verdict=%s err=%s ev3=%s%s%s escaped=%s", id, b01(verdict), errClass(perr), b01(v2), b01(e2 != nil), b01(v3), b01(escaped))
 	case "lower":
 		t, ok := hexBytes(x.list[2].atom)
 		if !ok {
